@@ -154,21 +154,46 @@ func (g *flushGate) pass() {
 
 var errInjected = errors.New("injected storage read fault")
 
+// One faultFS per deployment. [dead] is set when the deployment is replaced by a redeploy (or the case ends): the
+// process it stands for is gone, so nothing it left behind deletes files any more. Table objects delete their file
+// from a runtime.AddCleanup whenever the Go GC happens to collect them (known finding D11 of C08/C09); without this a
+// late cleanup of the OLD database could remove a file the NEW database has meanwhile written under the same name -
+// an effect of sharing one heap that no timing of GC rounds can exclude.
 type faultFS struct {
 	storage.FileSystem
-	ctl *faultCtl
+	ctl  *faultCtl
+	dead *atomic.Bool
 }
 
 func (fs *faultFS) New(path string) storage.File {
-	return &faultFile{File: fs.FileSystem.New(path), ctl: fs.ctl}
+	return &faultFile{File: fs.FileSystem.New(path), ctl: fs.ctl, dead: fs.dead}
 }
 func (fs *faultFS) Open(path string) storage.File {
-	return &faultFile{File: fs.FileSystem.Open(path), ctl: fs.ctl}
+	return &faultFile{File: fs.FileSystem.Open(path), ctl: fs.ctl, dead: fs.dead}
 }
 
 type faultFile struct {
 	storage.File
-	ctl *faultCtl
+	ctl  *faultCtl
+	dead *atomic.Bool
+}
+
+func (f *faultFile) Delete() error {
+	if f.dead.Load() {
+		return nil
+	}
+	return f.File.Delete()
+}
+
+func (f *faultFile) CreateDeleteFunc() func() error {
+	del := f.File.CreateDeleteFunc()
+	dead := f.dead
+	return func() error {
+		if dead.Load() {
+			return nil
+		}
+		return del()
+	}
 }
 
 func (f *faultFile) ReadAt(p []byte, off int64) (int, error) {
@@ -749,12 +774,14 @@ func (eng) execute(mode string, c *hx.Case) (*hx.Result, error) {
 	ctl := &faultCtl{}
 	sink := &failingSink{}
 	gate := &flushGate{}
+	var curFS *faultFS // the file system of the current deployment (set by the hook inside HandleDeploy, same goroutine)
 	verifhook.Set(func(name string, args ...any) {
 		switch name {
 		case "operator.deploy.fs":
 			if len(args) == 1 {
 				if p, ok := args[0].(*storage.FileSystem); ok && *p != nil {
-					*p = &faultFS{FileSystem: *p, ctl: ctl}
+					curFS = &faultFS{FileSystem: *p, ctl: ctl, dead: &atomic.Bool{}}
+					*p = curFS
 				}
 			}
 		case "dkv.flush.begin", "dkv.flush.swap":
@@ -792,13 +819,24 @@ func (eng) execute(mode string, c *hx.Case) (*hx.Result, error) {
 		opr.Stop()
 		cancel()
 		<-started
+		if curFS != nil {
+			curFS.dead.Store(true) // late table cleanups must not touch the storage of a finished case
+		}
 		runtime.KeepAlive(oldDBs)
 	}()
 
-	// While flushes are parked the DKV's task queue (capacity 5) fills up and the next rotation blocks inside Put -
-	// real back-pressure. The harness then opens the gate itself instead of waiting for the script's release.
+	// While flushes are parked the DKV's task queue (one running + 5 queued) fills up and a further rotation blocks
+	// inside Put - real back-pressure. The harness then opens the gate itself instead of waiting for the script's
+	// release: before an event when 3 or more sealed memtables are waiting, and - TIMING, harmless - when an event
+	// has not returned after 5 s (one event can rotate several times). Opening the gate early only means that the
+	// "checkpoint while a flush is parked" regime is not reached in this case; gate operations are not part of the
+	// history the model sees, and the KeyStates do not depend on when flushes run.
 	autoReleased := 0
 	send := func(ev *workerpb.Event) error {
+		if gate.held() && sealedMemtables(opr.VerifDKV()) >= 3 {
+			autoReleased++
+			gate.release()
+		}
 		if !gate.held() {
 			return opr.HandleEvent(ctx, "sr1", ev)
 		}
@@ -807,7 +845,7 @@ func (eng) execute(mode string, c *hx.Case) (*hx.Result, error) {
 		select {
 		case err := <-done:
 			return err
-		case <-time.After(400 * time.Millisecond):
+		case <-time.After(5 * time.Second):
 			autoReleased++
 			gate.release()
 			return <-done
@@ -923,8 +961,9 @@ func (eng) execute(mode string, c *hx.Case) (*hx.Result, error) {
 			}
 			valid = append(valid, job.ckpts[len(job.ckpts)-1])
 			if gate.held() {
-				// distribution tag only: a flush is parked at its begin/swap point (it may have been enqueued by the
-				// batch the barrier itself flushed, so give its goroutine a moment to get there)
+				// TIMING, harmless: distribution tag only. A flush is parked at its begin/swap point (it may have been
+				// enqueued by the batch the barrier itself flushed, so give its goroutine a moment to get there); if
+				// the moment is too short the tag is missing, nothing else changes
 				for w := 0; w < 30 && gate.parked.Load() == 0; w++ {
 					time.Sleep(time.Millisecond)
 				}
@@ -955,6 +994,9 @@ func (eng) execute(mode string, c *hx.Case) (*hx.Result, error) {
 			// let the cleanups of what it already dropped (compacted-away tables) run BEFORE the new database starts
 			// to write files under the same names.
 			oldDBs = append(oldDBs, old)
+			if curFS != nil {
+				curFS.dead.Store(true) // the old process is dead: whatever it left behind deletes nothing any more
+			}
 			settleGC()
 			// Restorable: the checkpoints of the current timeline. Redeploying from checkpoint X abandons every other
 			// one (the new database only knows X; it reuses the WAL and table file names of what came after X).
@@ -1200,8 +1242,34 @@ func bucket(name string, v int) string {
 	}
 }
 
+// sealedMemtables reads the number of sealed memtables from the database's diagnostics ("MemTables (num: N)", N
+// includes the active one); 0 if the text is not understood (then only the 5 s fallback opens the gate).
+func sealedMemtables(db *dkv.DB) int {
+	if db == nil {
+		return 0
+	}
+	d := db.Diagnostics()
+	i := strings.Index(d, "MemTables (num: ")
+	if i < 0 {
+		return 0
+	}
+	n := 0
+	for _, c := range d[i+len("MemTables (num: "):] {
+		if c < '0' || c > '9' {
+			break
+		}
+		n = n*10 + int(c-'0')
+	}
+	if n < 1 {
+		return 0
+	}
+	return n - 1
+}
+
 // settleGC runs the garbage collector and waits until cleanups queued by it have run (a sentinel object's
 // cleanup is queued by the same collection); a few rounds because cleanups may make more objects unreachable.
+// TIMING, harmless: it only gets the file deletions of already dropped tables out of the way early (less noise); that
+// a late cleanup of the old deployment cannot hurt the new one is guaranteed by faultFS.dead, not by this wait.
 func settleGC() {
 	for i := 0; i < 3; i++ {
 		done := make(chan struct{})
